@@ -198,7 +198,7 @@ func checkC18(c *core.Check) {
 	}
 	nPacks, opsPerPack, nPartial, nSeeds := 2, 12, 2, 4
 	if thorough {
-		nPacks, opsPerPack, nPartial, nSeeds = 6, 15, 6, 10
+		nPacks, opsPerPack, nPartial, nSeeds = 20, 15, 8, 12
 	}
 	// operations, pre-flighted
 	nOps := nPacks * opsPerPack * 2
